@@ -485,6 +485,9 @@ SITES = [
     Site("alloc_array", "lib/lpc/array.c", "allocate_array", [], "Illegal array size.\n"),
     Site("alloc_empty_array", "lib/lpc/array.c", "allocate_empty_array", [], "Illegal array size.\n"),
     Site("alloc_buffer", "lib/lpc/buffer.c", "allocate_buffer", [], "Illegal buffer size.\n"),
+    # array / string builders: size checks in front of the allocation
+    Site("add_array", "lib/lpc/array.c", "add_array", [], "result of array addition is greater than maximum array size.\n"),
+    Site("implode", "lib/lpc/array.c", "implode_string", [], "implode: String too large.\n"),
     # value stack checks
     Site("stack_push_undefineds", "src/stack.c", "push_undefineds", [], "***Stack overflow!"),
     Site("stack_push_some_svalues", "src/stack.c", "push_some_svalues", [], "***Stack overflow!"),
@@ -656,6 +659,185 @@ def extract_error_fn(bdir):
 
 
 # ---------------------------------------------------------------------------------------------------------------
+# explode_string(): piece count clamp, fill-loop bound, store indices (lib/lpc/array.c)
+
+def _walk(n, fn, in_for=0):
+    fn(n, in_for)
+    for c in n.get("inner", []):
+        if isinstance(c, dict):
+            _walk(c, fn, in_for + (1 if n.get("kind") == "ForStmt" else 0))
+
+
+def _is_ref(n, name):
+    n = strip(n)
+    return n.get("kind") == "DeclRefExpr" and n["referencedDecl"]["name"] == name
+
+
+def extract_explode(bdir):
+    fn = ast_function(bdir, "lib/lpc/array.c", "explode_string")
+    body = [c for c in fn["inner"] if c.get("kind") == "CompoundStmt"][0]
+    out = []
+
+    def tr_int(node, name, doc):
+        tr = Tr()
+        try:
+            ex = tr.int_expr(node)
+        except OutOfGrammar as e:
+            raise TieBroken("explode:" + name, "%s left the grammar: %s (C: %s)" % (name, e, c_text(node)))
+        out.append(lean_def(name, tr, ex, doc + ": `%s`" % c_text(node), "Int"))
+        return [p[0] for p in tr.params]
+
+    def tr_bool(node, name, doc):
+        tr = Tr()
+        try:
+            ex = tr.bool_expr(node)
+        except OutOfGrammar as e:
+            raise TieBroken("explode:" + name, "%s left the grammar: %s (C: %s)" % (name, e, c_text(node)))
+        out.append(lean_def(name, tr, ex, doc + ": `%s`" % c_text(node)))
+        return [p[0] for p in tr.params]
+
+    # 1. `if (num > MAX) num = MAX;`
+    clamp = []
+    # 2. `limit = MAX - 1;`
+    limit = []
+    # 3. allocation argument (the one whose argument is `num`)
+    alloc = []
+    # 4. `num++` directly in the function body (REVERSIBLE_EXPLODE_STRING) or under an if
+    uncond_inc = [False]
+    cond_inc = [False]
+    fors = []
+    fatal = []
+    stores_loop, stores_last = [], []
+
+    def visit(n, in_for):
+        k = n.get("kind")
+        if k == "IfStmt":
+            then = n["inner"][1]
+            stmts = then.get("inner", []) if then.get("kind") == "CompoundStmt" else [then]
+            for st in stmts:
+                if st.get("kind") == "BinaryOperator" and st.get("opcode") == "=" and _is_ref(st["inner"][0], "num"):
+                    clamp.append((n["inner"][0], st["inner"][1]))
+                if st.get("kind") == "UnaryOperator" and st.get("opcode") == "++" and _is_ref(st["inner"][0], "num") and not in_for:
+                    cond_inc[0] = True
+                if st.get("kind") == "CallExpr" and callee_name(st) == "fatal":
+                    fatal.append(n["inner"][0])
+        if k == "BinaryOperator" and n.get("opcode") == "=" and _is_ref(n["inner"][0], "limit"):
+            limit.append(n["inner"][1])
+        if k == "CallExpr" and callee_name(n) == "allocate_empty_array" and len(n["inner"]) > 1 and \
+                subtree_has(n["inner"][1], lambda m: _is_ref(m, "num")):
+            alloc.append(n["inner"][1])
+        if k == "ForStmt":
+            fors.append(n)
+        if k == "ArraySubscriptExpr":
+            b = strip(n["inner"][0])
+            if b.get("kind") == "MemberExpr" and b.get("name") == "item" and subtree_has(n["inner"][1], lambda m: _is_ref(m, "num")):
+                (stores_loop if in_for else stores_last).append(n["inner"][1])
+    _walk(body, visit)
+    for st in body.get("inner", []):
+        if st.get("kind") == "UnaryOperator" and st.get("opcode") == "++" and _is_ref(st["inner"][0], "num"):
+            uncond_inc[0] = True
+    if len(clamp) != 1 or len(limit) != 1 or len(alloc) != 1 or len(fatal) != 1 or not stores_loop or not stores_last:
+        raise TieBroken("explode:shape", "explode_string(): clamp=%d limit=%d alloc=%d fatal=%d loop stores=%d last stores=%d" % (
+            len(clamp), len(limit), len(alloc), len(fatal), len(stores_loop), len(stores_last)))
+    if uncond_inc[0] == cond_inc[0]:
+        raise TieBroken("explode:count", "explode_string(): cannot tell whether the piece count is always incremented")
+    out.append("/-- explode_string(): `num++` after counting the delimiters is unconditional (REVERSIBLE_EXPLODE_STRING) -/\n"
+               "def explodeReversible : Bool := %s\n" % ("true" if uncond_inc[0] else "false"))
+    tr_bool(clamp[0][0], "guard_explode_clamp", "explode_string(): clamp of the piece count")
+    if tr_int(clamp[0][1], "explodeClampTo", "value assigned by the clamp") != ["config_int_11"]:
+        raise TieBroken("explode:clamp", "clamp value is not the configured limit")
+    if tr_int(limit[0], "explodeLimit", "explode_string(): bound of the fill loop, `limit =`") != ["config_int_11"]:
+        raise TieBroken("explode:limit", "fill-loop bound does not depend on the configured limit only")
+    if tr_int(alloc[0], "explodeAlloc", "explode_string(): argument of allocate_empty_array") != ["num"]:
+        raise TieBroken("explode:alloc", "allocation size is not a function of num")
+    # the fill loop: the for statement whose body stores through ret->item[..num..]
+    loop = [f for f in fors if subtree_has(f, lambda m: m.get("kind") == "ArraySubscriptExpr" and
+                                           subtree_has(m["inner"][1], lambda q: _is_ref(q, "num")))]
+    if len(loop) != 1:
+        raise TieBroken("explode:loop", "fill loop of explode_string() not found")
+    cond = [c for c in loop[0]["inner"] if isinstance(c, dict) and c][1] if False else None
+    inner = loop[0]["inner"]
+    cond = inner[2] if len(inner) >= 5 else None
+    cmps = []
+
+    def findcmp(n, _):
+        if n.get("kind") == "BinaryOperator" and n.get("opcode") in ("<", "<=", ">", ">=", "!=") and \
+                subtree_has(n, lambda m: _is_ref(m, "limit")):
+            cmps.append(n)
+    if cond:
+        _walk(cond, findcmp)
+    if len(cmps) != 1:
+        raise TieBroken("explode:loopcond", "fill loop condition does not contain exactly one comparison with `limit`")
+    if tr_bool(cmps[0], "guard_explode_loop", "explode_string(): fill loop continues while") != ["num", "limit"]:
+        raise TieBroken("explode:loopcond", "unexpected operands in the fill loop condition")
+    if tr_bool(fatal[0], "guard_explode_fatal", "explode_string(): fatal(\"Index out of bounds in explode!\") when") != ["num", "size"]:
+        raise TieBroken("explode:fatal", "unexpected operands in the fatal() guard")
+
+    def same_index(nodes, name, doc):
+        texts = set(c_text(x) for x in nodes)
+        if len(texts) != 1:
+            raise TieBroken("explode:" + name, "stores use different indices: %s" % texts)
+        if tr_int(nodes[0], name, doc) != ["num"]:
+            raise TieBroken("explode:" + name, "store index is not a function of num")
+    same_index(stores_loop, "explodeLoopIdx", "explode_string(): index of the stores inside the fill loop, ret->item[..]")
+    same_index(stores_last, "explodeLastIdx", "explode_string(): index of the last-piece store after the loop, ret->item[..]")
+    return "\n".join(out)
+
+
+# ---------------------------------------------------------------------------------------------------------------
+# add_array() / implode_string(): the size expressions that are allocated
+
+def extract_builder_sizes(bdir):
+    out = []
+    # add_array: `res = p->size + r->size;`
+    fn = ast_function(bdir, "lib/lpc/array.c", "add_array")
+    found = []
+
+    def v1(n, _):
+        if n.get("kind") == "BinaryOperator" and n.get("opcode") == "=" and _is_ref(n["inner"][0], "res"):
+            found.append(n["inner"][1])
+    _walk(fn, v1)
+    if len(found) != 1:
+        raise TieBroken("add_array:res", "add_array(): `res = ...` not found exactly once")
+    tr = Tr()
+    try:
+        ex = tr.int_expr(found[0])
+    except OutOfGrammar as e:
+        raise TieBroken("add_array:res", "res left the grammar: %s" % e)
+    if [p[0] for p in tr.params] != ["size", "size2"]:
+        raise TieBroken("add_array:res", "unexpected operands of res: %s" % (tr.params,))
+    out.append(lean_def("addArrayRes", tr, ex, "add_array(): `res = %s` (allocated and filled: p first, r after)" % c_text(found[0]), "Int"))
+    # every allocation / resize of add_array uses `res`
+    allocs = []
+
+    def v2(n, _):
+        if n.get("kind") == "CallExpr" and callee_name(n) in ("allocate_empty_array", "allocate_array") and len(n["inner"]) > 1:
+            allocs.append(c_text(strip(n["inner"][1])))
+    _walk(fn, v2)
+    if not allocs or any(a != "res" for a in allocs):
+        raise TieBroken("add_array:alloc", "add_array(): allocation argument is not `res`: %s" % allocs)
+    # implode_string: the argument of new_string
+    fn = ast_function(bdir, "lib/lpc/array.c", "implode_string")
+    args = []
+
+    def v3(n, _):
+        if n.get("kind") == "CallExpr" and callee_name(n) in ("new_string", "int_new_string") and len(n["inner"]) > 1:
+            args.append(n["inner"][1])
+    _walk(fn, v3)
+    if len(args) != 1:
+        raise TieBroken("implode:alloc", "implode_string(): new_string call not found exactly once")
+    tr = Tr()
+    try:
+        ex = tr.int_expr(args[0])
+    except OutOfGrammar as e:
+        raise TieBroken("implode:alloc", "allocation size left the grammar: %s" % e)
+    if [p[0] for p in tr.params] != ["size", "num", "del_len"]:
+        raise TieBroken("implode:alloc", "unexpected operands of the allocation size: %s" % (tr.params,))
+    out.append(lean_def("implodeAlloc", tr, ex, "implode_string(): `new_string (%s)`" % c_text(args[0]), "Int"))
+    return "\n".join(out)
+
+
+# ---------------------------------------------------------------------------------------------------------------
 # stack geometry: end_of_stack = start_of_stack + size - 5
 
 def extract_stack_geometry(bdir):
@@ -748,7 +930,7 @@ def efun_table(bdir, tvals):
         dv = {"DEFAULT_NONE": -3, "DEFAULT_THIS_OBJECT": -2}.get(deflt)
         if dv is None:
             dv = int(deflt)
-        rows.append({"name": name, "op": ops[tokname], "min": int(f[4]), "max": int(f[5]),
+        rows.append({"name": name, "op": ops[tokname], "min": int(f[4]), "max": int(f[5]), "ret": f[6],
                      "types": [mask(f[7]), mask(f[8]), mask(f[9]), mask(f[10])], "default": dv, "alias": alias})
     return rows, ops
 
@@ -849,7 +1031,9 @@ def find_format_functions():
 
 def format_inventory(bdir):
     """[(file, enclosing function, callee, line)] of printf-style calls whose format argument is not a string
-    literal (clang-query AST matcher over every C/C++ source of src/ and lib/)"""
+    literal (clang-query AST matcher over every C/C++ source of src/ and lib/).  A format counts as literal when it
+    is a string literal, possibly parenthesised / cast, or `c ? "lit1" : "lit2"` with BOTH arms such literals; a
+    conditional with any other arm is reported."""
     fns = dict(LIBC_FMT)
     fns.update(find_format_functions())
     if "error" not in fns:
@@ -862,7 +1046,7 @@ def format_inventory(bdir):
     with open(qf, "w") as f:
         f.write("set output diag\n")
         for idx, names in sorted(by_idx.items()):
-            f.write('match callExpr(callee(functionDecl(hasAnyName(%s)).bind("callee")), hasArgument(%d, expr(unless(ignoringParenImpCasts(stringLiteral())))), forFunction(functionDecl().bind("f")))\n'
+            f.write('match callExpr(callee(functionDecl(hasAnyName(%s)).bind("callee")), hasArgument(%d, expr(unless(anyOf(ignoringParenCasts(stringLiteral()), ignoringParenCasts(conditionalOperator(hasTrueExpression(ignoringParenCasts(stringLiteral())), hasFalseExpression(ignoringParenCasts(stringLiteral())))))))), forFunction(functionDecl().bind("f")))\n'
                     % (", ".join('"%s"' % n for n in sorted(names)), idx - 1))
     files = []
     for root in ("src", "lib"):
@@ -895,7 +1079,8 @@ def format_inventory(bdir):
                         except OSError:
                             fm = None
                     cm = re.search(r"(\w+)\s*\(", cur["callee"][2])
-                    call = re.search(r"(\w+)\s*\(", cur["root"][2])
+                    call = re.search(r"\b(%s)\s*\(" % "|".join(sorted(fns, key=len, reverse=True)), cur["root"][2]) or \
+                        re.search(r"(\w+)\s*\(", cur["root"][2])
                     rows.add((os.path.relpath(cur["root"][0], E.REPO), fm.group(1) if fm else "?",
                               call.group(1) if call else (cm.group(1) if cm else "?"), cur["root"][1]))
                 cur = {}
@@ -959,7 +1144,11 @@ def generate_all(bdir, tvals):
         parts.append(e)
         info["error_fn"] = einfo
 
-    for f in (p_guards, p_stack, p_efuns, p_format, p_error):
+    def p_explode():
+        parts.append(extract_explode(bdir))
+        parts.append(extract_builder_sizes(bdir))
+
+    for f in (p_guards, p_stack, p_efuns, p_format, p_explode, p_error):
         part(f)
     if broken:
         e = broken[0]
